@@ -50,6 +50,9 @@ type lxEnv struct {
 	acc   map[string]bool   // accepted sub-comparators by "Type.method"
 	l, r  string
 	leftLocals map[string]bool
+	// tail analyses the comparator method a chain ends in (return l.m(r))
+	tail  func(call *ast.CallExpr, e *lxEnv) *lxResult
+	depth int
 }
 
 func (e *lxEnv) src(n ast.Node) string {
@@ -598,6 +601,16 @@ func (e *lxEnv) steps(list []ast.Stmt, loop string, res *lxResult) bool {
 					i++
 					continue
 				}
+				// the chain continues in another comparator of the same operands:
+				// return l.m(r) - a lexicographic product again if m is a chain
+				if call, ok := st.Results[0].(*ast.CallExpr); ok && e.tail != nil && e.depth < 3 && loop == "" {
+					if sub := e.tail(call, e); sub != nil && sub.ok && sub.needsAtMostOne == "" {
+						res.keys = append(res.keys, sub.keys...)
+						res.total, res.last = sub.total, sub.last
+						i++
+						continue
+					}
+				}
 			}
 			res.why = "final return is neither false nor a strict comparison of a key at " + e.pos(st)
 			return false
@@ -957,8 +970,40 @@ func runLX(c *Ctx) (obls []Obl) {
 		return nil
 	}
 	acc := map[string]bool{}
-	newEnv := func(l, r string) *lxEnv {
-		return &lxEnv{info: pkg.TypesInfo, fset: c.L.Fset, pair: map[string]string{l: r, r: l}, acc: acc, l: l, r: r, leftLocals: map[string]bool{}}
+	var newEnv func(l, r string) *lxEnv
+	tail := func(call *ast.CallExpr, from *lxEnv) *lxResult {
+		sel, ok := call.Fun.(*ast.SelectorExpr)
+		if !ok || len(call.Args) != 1 {
+			return nil
+		}
+		// receiver and argument are the two operands
+		ri, ok1 := sel.X.(*ast.Ident)
+		ai, ok2 := call.Args[0].(*ast.Ident)
+		if !ok1 || !ok2 || ri.Name != from.l || ai.Name != from.r {
+			return nil
+		}
+		fnObj, _ := pkg.TypesInfo.ObjectOf(sel.Sel).(*types.Func)
+		if fnObj == nil || fnObj.Pkg() != pkg.Types {
+			return nil
+		}
+		for _, f := range pkg.Syntax {
+			for _, d := range f.Decls {
+				fd, ok := d.(*ast.FuncDecl)
+				if !ok || fd.Body == nil || pkg.TypesInfo.Defs[fd.Name] != types.Object(fnObj) {
+					continue
+				}
+				if fd.Recv == nil || len(fd.Recv.List) != 1 || len(fd.Recv.List[0].Names) != 1 || len(fd.Type.Params.List) != 1 || len(fd.Type.Params.List[0].Names) != 1 {
+					return nil
+				}
+				e2 := newEnv(fd.Recv.List[0].Names[0].Name, fd.Type.Params.List[0].Names[0].Name)
+				e2.depth = from.depth + 1
+				return e2.analyse(fd.Body)
+			}
+		}
+		return nil
+	}
+	newEnv = func(l, r string) *lxEnv {
+		return &lxEnv{info: pkg.TypesInfo, fset: c.L.Fset, pair: map[string]string{l: r, r: l}, acc: acc, l: l, r: r, leftLocals: map[string]bool{}, tail: tail}
 	}
 	results := map[string]*lxResult{}
 	for _, m := range []struct{ recv, name string }{{"Stack", "less"}, {"Signature", "less"}} {
@@ -1143,6 +1188,21 @@ func runLX(c *Ctx) (obls []Obl) {
 	}
 	// LX-order on Stack.less
 	lxOrder(c, a, find("Stack", "less"), results["Stack.less"])
+	// ... and on Signature.less: what the frames say comes before the flags
+	// (a thread-locked bucket of standard-library frames does not outrank a
+	// bucket with package-main or module frames)
+	if res := results["Signature.less"]; res != nil && res.ok && len(res.keys) > 0 {
+		k0 := res.keys[0]
+		pos := token.NoPos
+		if fd := find("Signature", "less"); fd != nil {
+			pos = fd.Pos()
+		}
+		if strings.HasPrefix(k0.Kind, "sub:") && strings.Contains(k0.Expr+k0.Kind, "Stack") {
+			a.ok("LX-order", "Signature.less/stack-first", "signatures are ordered by their stacks first, by lock flag and state only between equal stack ranks", pos)
+		} else {
+			a.bad("LX-order", "Signature.less/stack-first", fmt.Sprintf("the first key of Signature.less is %s (%s), not the comparison of the stacks: a flag outranks what the frames say, so a bucket of standard-library frames can come before buckets with package-main or module frames", k0.Expr, k0.Kind), pos)
+		}
+	}
 	lxEnum(c, a)
 	return
 }
@@ -1173,7 +1233,25 @@ func lxClassifyCounts(body *ast.BlockStmt) map[string]string {
 		}
 		v, _ := rs.Value.(*ast.Ident)
 		if v == nil {
-			return true
+			// for i := range xs { c := &xs[i] ... }: the element under a local name
+			key, _ := rs.Key.(*ast.Ident)
+			if key == nil || len(rs.Body.List) == 0 {
+				return true
+			}
+			if as, ok := rs.Body.List[0].(*ast.AssignStmt); ok && as.Tok == token.DEFINE && len(as.Lhs) == 1 && len(as.Rhs) == 1 {
+				rhs := as.Rhs[0]
+				if u, ok := rhs.(*ast.UnaryExpr); ok && u.Op == token.AND {
+					rhs = u.X
+				}
+				if ix, ok := rhs.(*ast.IndexExpr); ok {
+					if id, ok := ix.Index.(*ast.Ident); ok && id.Name == key.Name && types.ExprString(ix.X) == types.ExprString(rs.X) {
+						v, _ = as.Lhs[0].(*ast.Ident)
+					}
+				}
+			}
+			if v == nil {
+				return true
+			}
 		}
 		for _, s := range rs.Body.List {
 			switch st := s.(type) {
